@@ -1,3 +1,215 @@
+import Bch.Proofs.HDKey
+import Bch.Props.C07a
+/-!
+# C05 — extended-key strings round-trip and are strictly validated
+
+Model: `Bch.Model.HDKey.NewKeyFromString` / `String`. Vocabulary (`WF`, `Reduced`, `GroupLaws`,
+`sliceKey`, `payload`, the toy instance `Toy.X`) is defined in `Bch/Proofs/HDKey.lean`.
+The two Base58 facts needed (`Decode (Encode b) = b` for all `b`, `Encode (Decode s) = s` for `s` over
+the alphabet) are the theorems `C07_b58_dec_enc` / `C07_b58_enc_dec` of `Bch/Props/C07a.lean`; the
+lemmas in `Bch/Proofs/HDKey.lean` take them as explicit hypotheses `hB58` / `hB58'`, they are
+discharged here.
+-/
 namespace Bch.Props.C05
-theorem placeholder : True := trivial
+open Bch Bch.Model Bch.Model.HDKey Bch.Spec.BIP32 Bch.Proofs.HDKey Bytes
+
+variable {Pt : Type} {X : HDExt Pt}
+
+/-! ### produced keys parse back -/
+
+/-- **`NewKeyFromString (String k) = k`** — the very same record, hence identical serialisation,
+flag, depth, fingerprint, child number, chain code, key bytes and derivation behaviour.
+
+Hypotheses besides `WF`: the private scalar is in `[1, n-1]`. `NewMaster`, `Child` and
+`NewKeyFromString` guarantee `< n` (`Reduced`, see `C04.hd_wf_*`); `NewMaster`/`NewKeyFromString`
+guarantee `≠ 0`, but **`Child` does not exclude a zero child scalar**, and such a key would *not* parse
+back (`ErrUnusableSeed`) — hence the explicit `hnz`. `hcn`: the child number fits `uint32`. -/
+theorem C05_parse_string (L : GroupLaws X) {k : XKey} (hwf : WF X k) (hred : Reduced X k)
+    (hnz : k.isPrivate = true → toNatBE k.key ≠ 0) (hcn : k.childNum < 2 ^ 32) :
+    NewKeyFromString X (HDKey.String X k) = .ok k :=
+  parse_string L Bch.Props.C07.C07_b58_dec_enc hwf hred hnz hcn
+
+example : WF Toy.X Toy.kPriv ∧ Reduced Toy.X Toy.kPriv ∧
+    (Toy.kPriv.isPrivate = true → toNatBE Toy.kPriv.key ≠ 0) ∧ Toy.kPriv.childNum < 2 ^ 32 :=
+  ⟨Toy.wf_kPriv, Toy.reduced_kPriv, fun _ => by rw [Toy.key_kPriv]; decide, by decide⟩
+example : WF Toy.X Toy.kPub ∧ Reduced Toy.X Toy.kPub ∧
+    (Toy.kPub.isPrivate = true → toNatBE Toy.kPub.key ≠ 0) ∧ Toy.kPub.childNum < 2 ^ 32 :=
+  ⟨Toy.wf_kPub, (fun h => by cases h), (fun h => by cases h), by decide⟩
+
+/-- What parses back from `String k` is `k` and nothing else; in particular it derives the same
+children (`Child` is a function of the record). -/
+theorem C05_parse_string_child (L : GroupLaws X) {k k' : XKey} (hwf : WF X k) (hred : Reduced X k)
+    (hnz : k.isPrivate = true → toNatBE k.key ≠ 0) (hcn : k.childNum < 2 ^ 32)
+    (h : NewKeyFromString X (HDKey.String X k) = .ok k') :
+    k' = k ∧ ∀ i, Child X k' i = Child X k i := by
+  rw [C05_parse_string L hwf hred hnz hcn] at h
+  cases h; exact ⟨rfl, fun _ => rfl⟩
+
+/-- Master keys parse back. -/
+theorem C05_parse_string_master (L : GroupLaws X) {seed v : Bytes} (hv : v.length = 4) {k : XKey}
+    (h : NewMaster X seed v = .ok k) : NewKeyFromString X (HDKey.String X k) = .ok k := by
+  obtain ⟨hwf, hred, hnz, _, _⟩ := wf_newMaster L hv h
+  refine C05_parse_string L hwf hred (fun _ => hnz) ?_
+  unfold NewMaster at h
+  split at h
+  · cases h
+  · simp only [] at h
+    split at h
+    · cases h
+    · cases h; exact (by decide : (0 : Nat) < 2 ^ 32)
+
+example : ∃ k, Toy.xprv.length = 4 ∧ NewMaster Toy.X Toy.seed Toy.xprv = .ok k :=
+  Toy.master_seed.elim fun k h => ⟨k, rfl, h⟩
+
+/-- Private children parse back, unless the child scalar is 0 (the case the Go code does not test). -/
+theorem C05_parse_string_child_priv (L : GroupLaws X) {k : XKey} (hwf : WF X k) (hp : k.isPrivate = true)
+    {i : Nat} (hi : i < 2 ^ 32) {c : XKey} (hc : Child X k i = .ok c) (hnz : toNatBE c.key ≠ 0) :
+    NewKeyFromString X (HDKey.String X c) = .ok c := by
+  obtain ⟨hwf', hred', _, _⟩ := wf_child_priv L hwf hp hc
+  have := (child_lens L hwf hc).2.2.2.2.2.1
+  exact C05_parse_string L hwf' hred' (fun _ => hnz) (by rw [this]; exact hi)
+
+-- the hypothesis `hnz` cannot be dropped: in the toy instance `Child kPriv 8` succeeds with child scalar 0,
+-- and the string of that key is refused
+example : Child Toy.X Toy.kPriv 8 = .ok Toy.cZero ∧
+    NewKeyFromString Toy.X (HDKey.String Toy.X Toy.cZero) = .error .unusableSeed := by
+  refine ⟨Toy.child_kPriv_8, ?_⟩
+  rw [String_eq_of_len (by decide +kernel), error_iff, Bch.Props.C07.C07_b58_dec_enc]
+  exact Or.inr (Or.inr (Or.inl ⟨by decide +kernel, by decide +kernel, by decide +kernel,
+    Or.inr (by decide +kernel), rfl⟩))
+-- … whereas a child with non-zero scalar satisfies all hypotheses
+example : ∃ c, WF Toy.X Toy.kPriv ∧ Toy.kPriv.isPrivate = true ∧ 0 < 2 ^ 32 ∧
+    Child Toy.X Toy.kPriv 0 = .ok c ∧ toNatBE c.key ≠ 0 :=
+  Toy.child_kPriv_0.elim fun c h => ⟨c, Toy.wf_kPriv, rfl, by decide, h, by
+    rw [(wf_child_priv Toy.laws Toy.wf_kPriv rfl h).2.2.2, Toy.IL_kPriv_0, Toy.key_kPriv]; decide +kernel⟩
+
+/-- Public children parse back, unless the child point is ∞ (not tested by the Go code). -/
+theorem C05_parse_string_child_pub (L : GroupLaws X) {k : XKey} (hwf : WF X k) (hp : k.isPrivate = false)
+    {i : Nat} {c : XKey} (hc : Child X k i = .ok c) {Q : Pt}
+    (hnd : addO X (X.mulG (childIL X k i)) (X.parse k.key) = some Q) :
+    NewKeyFromString X (HDKey.String X c) = .ok c := by
+  obtain ⟨hwf', hp', _⟩ := wf_child_pub L hwf hp hc hnd
+  obtain ⟨_, P, hP, _⟩ := hwf.pub_key hp
+  have hcn := (child_lens L hwf hc).2.2.2.2.2.1
+  have hi : i < 2 ^ 31 := by
+    apply Nat.lt_of_not_ge; intro hge
+    have hd : k.depth ≠ 255 := by
+      intro h255; rw [guard_depth k i h255] at hc; cases hc
+    rw [guard_hard k i hd hp hge] at hc; cases hc
+  exact C05_parse_string L hwf' (fun h => by rw [hp'] at h; cases h) (fun h => by rw [hp'] at h; cases h)
+    (by rw [hcn]; omega)
+
+example : ∃ c Q, WF Toy.X Toy.kPub ∧ Toy.kPub.isPrivate = false ∧ Child Toy.X Toy.kPub 0 = .ok c ∧
+    addO Toy.X (Toy.X.mulG (childIL Toy.X Toy.kPub 0)) (Toy.X.parse Toy.kPub.key) = some Q :=
+  Toy.child_kPub_0.elim fun c h => ⟨c, 1, Toy.wf_kPub, rfl, h, by rw [Toy.IL_kPub_0]; decide +kernel⟩
+
+/-! ### exactly which strings are accepted -/
+
+/-- **Acceptance criterion.** `NewKeyFromString s = ok k` iff the Base58 decoding `b` of `s` has
+exactly 82 bytes, its last 4 bytes are the first 4 bytes of `sha256d` of the first 78 (all four bytes
+compared), and either `b[45] = 0` and `0 < parse256 b[46:78] < n` (private), or `b[45] ≠ 0` and
+`ParsePubKey b[45:78]` succeeds (public); and `k` is exactly the field-wise slicing of `b`
+(`sliceKey`: version `b[0:4]`, depth `b[4]`, fingerprint `b[5:9]`, child number `b[9:13]` big-endian,
+chain code `b[13:45]`, key `b[46:78]` resp. `b[45:78]`). No hypothesis on `X`. -/
+theorem C05_accept_iff (s : Bytes) (k : XKey) :
+    NewKeyFromString X s = .ok k ↔
+      (Base58.Decode s).length = 82 ∧
+      (Base58.Decode s).drop 78 = (X.sha256d ((Base58.Decode s).take 78)).take 4 ∧
+      (((Base58.Decode s).getD 45 0 = 0 ∧ 0 < toNatBE (((Base58.Decode s).drop 46).take 32) ∧
+          toNatBE (((Base58.Decode s).drop 46).take 32) < X.n ∧ k = sliceKey (Base58.Decode s) true) ∨
+       ((Base58.Decode s).getD 45 0 ≠ 0 ∧ X.parse (((Base58.Decode s).drop 45).take 33) ≠ none ∧
+          k = sliceKey (Base58.Decode s) false)) :=
+  accept_iff s k
+
+/-- The same with the string given as the Base58 encoding of a byte string `b`. -/
+theorem C05_accept_encoded_iff (b : Bytes) (k : XKey) :
+    NewKeyFromString X (Base58.Encode b) = .ok k ↔
+      b.length = 82 ∧ b.drop 78 = (X.sha256d (b.take 78)).take 4 ∧
+      ((b.getD 45 0 = 0 ∧ 0 < toNatBE ((b.drop 46).take 32) ∧ toNatBE ((b.drop 46).take 32) < X.n ∧
+          k = sliceKey b true) ∨
+       (b.getD 45 0 ≠ 0 ∧ X.parse ((b.drop 45).take 33) ≠ none ∧ k = sliceKey b false)) := by
+  rw [accept_iff, Bch.Props.C07.C07_b58_dec_enc]
+
+/-- **Every error, in the order the code checks**: wrong length ⇒ `ErrInvalidKeyLen`; then checksum
+mismatch ⇒ `ErrBadChecksum`; then, private, scalar `≥ n` or `= 0` ⇒ `ErrUnusableSeed`; public,
+`ParsePubKey` fails ⇒ its error (`other`). Together with `C05_accept_iff` this is exhaustive. -/
+theorem C05_errors (s : Bytes) (e : Err) :
+    NewKeyFromString X s = .error e ↔
+      ((Base58.Decode s).length ≠ 82 ∧ e = .invalidKeyLen) ∨
+      ((Base58.Decode s).length = 82 ∧
+        (Base58.Decode s).drop 78 ≠ (X.sha256d ((Base58.Decode s).take 78)).take 4 ∧ e = .badChecksum) ∨
+      ((Base58.Decode s).length = 82 ∧
+        (Base58.Decode s).drop 78 = (X.sha256d ((Base58.Decode s).take 78)).take 4 ∧
+        (Base58.Decode s).getD 45 0 = 0 ∧
+        (toNatBE (((Base58.Decode s).drop 46).take 32) ≥ X.n ∨ toNatBE (((Base58.Decode s).drop 46).take 32) = 0) ∧
+        e = .unusableSeed) ∨
+      ((Base58.Decode s).length = 82 ∧
+        (Base58.Decode s).drop 78 = (X.sha256d ((Base58.Decode s).take 78)).take 4 ∧
+        (Base58.Decode s).getD 45 0 ≠ 0 ∧ X.parse (((Base58.Decode s).drop 45).take 33) = none ∧
+        e = .other) :=
+  error_iff s e
+
+/-- A byte outside the Base58 alphabet anywhere ⇒ `ErrInvalidKeyLen` (the decoder yields `[]`). -/
+theorem C05_foreign (s : Bytes) (h : ∃ c ∈ s, Base58.b58 c = none) :
+    NewKeyFromString X s = .error .invalidKeyLen := by
+  rw [error_iff, Bch.Props.C07.C07_b58_foreign s h]
+  exact Or.inl ⟨by decide, rfl⟩
+
+/-- **Accepted strings are canonical**: an accepted `s` re-serialises to exactly `s`. (Accepted
+strings are over the alphabet, otherwise the decoding is empty; no law about `X` is needed — for
+public keys `String` re-emits the stored 33 bytes.) -/
+theorem C05_string_parse {s : Bytes} {k : XKey} (h : NewKeyFromString X s = .ok k) :
+    HDKey.String X k = s :=
+  string_parse Bch.Props.C07.C07_b58_enc_dec h
+
+/-- Hence `NewKeyFromString` is injective on accepted strings … -/
+theorem C05_parse_injective {s t : Bytes} {k : XKey} (hs : NewKeyFromString X s = .ok k)
+    (ht : NewKeyFromString X t = .ok k) : s = t := by
+  rw [← C05_string_parse hs, ← C05_string_parse ht]
+
+/-- … and what it accepts has usable key material: a private scalar in `[1, n-1]` or (given that
+`ParsePubKey` only accepts canonical encodings) the compressed encoding of a point; and is `WF`. -/
+theorem C05_accept_wf (hc : ParseCanonical X) {s : Bytes} {k : XKey} (h : NewKeyFromString X s = .ok k) :
+    WF X k ∧ (k.isPrivate = true → 0 < toNatBE k.key ∧ toNatBE k.key < X.n) ∧ k.childNum < 2 ^ 32 := by
+  obtain ⟨h1, h2, h3, h4⟩ := wf_newKeyFromString hc h
+  exact ⟨h1, fun hp => ⟨Nat.pos_of_ne_zero (h3 hp), h2 hp⟩, h4⟩
+
+/-! ### non-vacuity: accepted and rejected strings of the toy instance -/
+
+-- an accepted private and an accepted public string
+example : NewKeyFromString Toy.X (HDKey.String Toy.X Toy.kPriv) = .ok Toy.kPriv :=
+  C05_parse_string Toy.laws Toy.wf_kPriv Toy.reduced_kPriv (fun _ => by rw [Toy.key_kPriv]; decide) (by decide)
+example : NewKeyFromString Toy.X (HDKey.String Toy.X Toy.kPub) = .ok Toy.kPub :=
+  C05_parse_string Toy.laws Toy.wf_kPub (fun h => by cases h) (fun h => by cases h) (by decide)
+example : ParseCanonical Toy.X := Toy.parseCanonical
+-- wrong length
+example : NewKeyFromString Toy.X (Base58.Encode [1, 2, 3]) = .error .invalidKeyLen := by
+  rw [C05_errors, Bch.Props.C07.C07_b58_dec_enc]; exact Or.inl ⟨by decide, rfl⟩
+-- foreign byte ('0' is not in the alphabet)
+example : NewKeyFromString Toy.X [48] = .error .invalidKeyLen :=
+  C05_foreign _ ⟨48, by simp, by decide +kernel⟩
+-- right length, one checksum byte wrong
+example : NewKeyFromString Toy.X (Base58.Encode (payload Toy.kPriv ++ [4, 0x88, 0xad, 0xe5])) =
+    .error .badChecksum := by
+  rw [C05_errors, Bch.Props.C07.C07_b58_dec_enc]
+  exact Or.inr (Or.inl ⟨by decide +kernel, by decide +kernel, rfl⟩)
+-- valid checksum, scalar = n
+example : NewKeyFromString Toy.X (HDKey.String Toy.X { Toy.kPriv with key := ofNatBE 32 7 }) =
+    .error .unusableSeed := by
+  rw [String_eq_of_len (by decide +kernel), C05_errors, Bch.Props.C07.C07_b58_dec_enc]
+  exact Or.inr (Or.inr (Or.inl ⟨by decide +kernel, by decide +kernel, by decide +kernel,
+    Or.inl (by decide +kernel), rfl⟩))
+-- valid checksum, scalar = 0
+example : NewKeyFromString Toy.X (HDKey.String Toy.X { Toy.kPriv with key := ofNatBE 32 0 }) =
+    .error .unusableSeed := by
+  rw [String_eq_of_len (by decide +kernel), C05_errors, Bch.Props.C07.C07_b58_dec_enc]
+  exact Or.inr (Or.inr (Or.inl ⟨by decide +kernel, by decide +kernel, by decide +kernel,
+    Or.inr (by decide +kernel), rfl⟩))
+-- valid checksum, 33 key bytes that are not a point
+example : NewKeyFromString Toy.X (HDKey.String Toy.X { Toy.kPub with key := 2 :: ofNatBE 32 9 }) =
+    .error .other := by
+  rw [String_eq_of_len (by decide +kernel), C05_errors, Bch.Props.C07.C07_b58_dec_enc]
+  exact Or.inr (Or.inr (Or.inr ⟨by decide +kernel, by decide +kernel, by decide +kernel,
+    by decide +kernel, rfl⟩))
+
 end Bch.Props.C05
